@@ -17,6 +17,13 @@ namespace bits {
     static void reset(Accessor&& acc) {
       acc.reset();
     }
+
+    // Some storage modes can acquire the value only after the item has been validated. In that case
+    // the value gets acquired here and true is returned to signal that the item has to be validated again.
+    template <class Accessor>
+    static bool acquire_value(Accessor& /*acc*/, std::memory_order /*order*/) {
+      return false;
+    }
   };
 
   template <class Key>
@@ -150,9 +157,10 @@ struct vyukov_hash_map_traits<Key, managed_ptr<Value, VReclaimer>, ValueReclaime
     }
 
   private:
-    accessor(storage_value_type& v, std::memory_order order) :
-        node_guard(acquire_guard(v, order)),
-        value_guard(acquire_guard(node_guard->value, order)) {}
+    // Only the node gets acquired here. At this point it is not yet known whether the node is still part of
+    // the map, i.e., whether the guard really protects it (the caller has to validate the bucket's version
+    // first), so we must not access it yet. The value is acquired in acquire_value.
+    accessor(storage_value_type& v, std::memory_order order) : node_guard(acquire_guard(v, order)) {}
     [[nodiscard]] const Key& key() const { return node_guard->key; }
     // accessor(typename storage_value_type::marked_ptr v) : guard(v) {}
     typename storage_value_type::guard_ptr node_guard;
@@ -162,6 +170,11 @@ struct vyukov_hash_map_traits<Key, managed_ptr<Value, VReclaimer>, ValueReclaime
   };
 
   static accessor acquire(storage_value_type& v, std::memory_order order) { return accessor(v, order); }
+
+  static bool acquire_value(accessor& acc, std::memory_order order) {
+    acc.value_guard = acquire_guard(acc.node_guard->value, order);
+    return true;
+  }
 
   template <bool AcquireAccessor>
   static void store_item(storage_key_type& key_cell,
